@@ -4,7 +4,7 @@ differential correspondence against the real static functions under AddressSanit
 import os
 import vcommon as V
 
-TRUSTED = ['Lean 4 kernel', 'hand-written models MiVerif/Model/Options.lean and MiVerif/Model/Printf.lean (compared with the real functions on ~50k inputs per run)',
+TRUSTED = ['Lean 4 kernel', 'translator extract/translate.py for the string functions of src/libc.c in Gen/Loops.lean (_mi_strlcpy, _mi_strlcat, _mi_strnlen: loops -> whileN, loads through the oracle ld8, stores as effect log), validated on every S line of the harness', 'hand-written models MiVerif/Model/Options.lean and MiVerif/Model/Printf.lean (compared with the real functions on ~50k inputs per run)',
            'harness/c20.c (drives the static functions through #include of src/static.c; exact-size heap buffers under AddressSanitizer)',
            'libc strtol / getenv / va_arg semantics; x86-64 SysV passing of integer and pointer varargs',
            'the model keeps `width` unbounded: agreement with the C size_t needs width fields of <= 18 digits, proved for every internal format (Gen/Formats.lean, regenerated)']
@@ -15,7 +15,7 @@ def run(chk):
                        'only the first 64 bytes of an environment value are parsed (a 64-byte well-formed prefix of a longer value is accepted) - scope limit, see DESIGN.md']
     chk.extra['rule'] = ('obligations = theorems of Props/C20.lean; evaluations = lines of harness/c20.c (real function results) recomputed by the Lean models + oracle evaluations; '
                          'distinct = distinct harness lines')
-    chk.lean('MiVerif.Props.C20', groups=['Formats'])
+    chk.lean('MiVerif.Props.C20', groups=['Formats', 'Loops'])
     ok, exe, log = V.build_driver()
     if not ok:
         chk.broken_tie('lean driver does not build', log[-1500:]); return
